@@ -29,7 +29,16 @@ def main():
     # demo placement: as a test if it contains #[test], else as an example
     src = open(os.path.join(d, "demo.rs")).read()
     name = "seed_demo_" + os.path.basename(d).lower().replace("-", "_")
-    if "#[test]" in src:
+    import glob
+    fixtures = glob.glob(os.path.join(d, "*.cddl"))
+    if fixtures or "cddl_derive" in src:
+        # a demonstration of the cddl-derive package: an integration test of that package with its fixture
+        os.makedirs(os.path.join(WT, "cddl-derive", "tests", "fixtures"), exist_ok=True)
+        for f in fixtures:
+            shutil.copy(f, os.path.join(WT, "cddl-derive", "tests", "fixtures"))
+        tname = "seed_c17_demo_%s" % os.path.basename(d).split("-")[1]
+        path = os.path.join(WT, "cddl-derive", "tests", tname + ".rs"); cmd = "cargo test --offline -p cddl-derive --test %s" % tname
+    elif "#[test]" in src:
         path = os.path.join(WT, "tests", name + ".rs"); cmd = "cargo test --offline --test %s" % name
     else:
         os.makedirs(os.path.join(WT, "examples"), exist_ok=True)
